@@ -11,7 +11,7 @@ TITLE = 'Matching options restrict the script as documented'
 LEVEL = 'exploration'
 TECHNIQUE = ('Hypothesis-generated pairs x all nine option combinations; independent walker checks the pairing '
              'constraints each option documents on every mapping and list edit at every depth')
-RULE = ("Cases: C01's generators for JSON-like documents, nested lists, plist-wrapped documents (all built by "
+RULE = ("Cases: C01's generators for JSON-like documents, YAML streams of several documents (read as the list of the documents, loaded through the YAML file type), nested lists, plist-wrapped documents (all built by "
         "json.build_tree with the options), the same documents built through BasicBuilder / pydiff.build_tree and XML elements (attributes carry the dictionary strategy) x {auto, match, "
         "none} x {on, off, off-when-same-length}; half of the 'none' cases ask for it as a library user would, BuildOptions(allow_key_edits=False) with auto_match_keys left at its default. Oracle over the fully refined script: strategy none => no "
         "non-insert/remove sub-edit of a mapping edit pairs items whose keys differ; auto => for every key present in "
@@ -34,9 +34,9 @@ valid = gen.valid_case
 
 def jobs(tier):
     if tier == 'quick':
-        plan = [('json', 10, 4, 260), ('nested', 0, 0, 60), ('xml', 5, 0, 120), ('plist', 8, 0, 30), ('builder', 10, 4, 120)]
+        plan = [('json', 10, 4, 260), ('nested', 0, 0, 60), ('xml', 5, 0, 120), ('plist', 8, 0, 30), ('builder', 10, 4, 120), ('yamlstream', 0, 0, 60)]
     else:
-        plan = [('json', 25, 7, 6000), ('nested', 0, 0, 1200), ('xml', 8, 0, 1000), ('plist', 12, 0, 600), ('builder', 20, 6, 2500)]
+        plan = [('json', 25, 7, 6000), ('nested', 0, 0, 1200), ('xml', 8, 0, 1000), ('plist', 12, 0, 600), ('builder', 20, 6, 2500), ('yamlstream', 0, 0, 1000)]
     js = []
     for s in range(16):
         for fam, ml, mw, n in plan:
